@@ -7,7 +7,7 @@ import shutil
 from hypothesis import strategies as st
 
 from vlib import env, gen, stores
-from vlib.runner import Violation, sut
+from vlib.runner import Stats, Violation, case_hash, sut
 
 ID = "C14"
 RULE = (
@@ -211,3 +211,36 @@ def run_case(case):
     if case.get("interleave") and len(case["buckets"]) > 1:
         classes.append("buckets_written_in_turns")
     return {"nontrivial": nt, "classes": classes, "evals": 1 + sum(len(_events(b)) for b in case["buckets"])}
+
+
+# ---------------------------------------------------------------------------
+# one very large legacy bucket (thorough only): limits that only bite in the tens of thousands
+
+
+def extra_phases(tier, seed, jobs):
+    if tier != "thorough":
+        return []
+    return [("huge", "phase_huge", [{"testing": t, "many": m} for t, m in ((True, 70000), (False, 33000))])]
+
+
+def _huge_case(task):
+    b = {"id": POOL[0], "type": "currentwindow", "client": "c", "hostname": "host", "name": None, "data": {"k": 1}, "created_us": 1_500_000_000_000_000, "created_off": 0, "events": [], "many": task["many"], "per": 1, "step_ms": 1, "dur_ms": 1}
+    small = {"id": POOL[1], "type": "afkstatus", "client": "c", "hostname": "host", "name": "n", "data": None, "created_us": 1_500_000_000_000_000, "created_off": 60, "events": [{"us": 1_600_000_000_000_000, "off": 0, "dur_us": 5, "data": {"k": "a"}}]}
+    return {"testing": task["testing"], "buckets": [b, small], "decoy": None, "interleave": 0}
+
+
+def phase_huge(task):
+    st_ = Stats()
+    try:
+        run_case(_huge_case(task))
+    except Violation as v:
+        st_.failure = {"kind": "huge", "case": task, "message": v.msg[:1500]}
+        return st_
+    st_.evals = task["many"]
+    st_.nontrivial.add(case_hash(task))
+    st_.classes["huge_bucket_events"] = task["many"]
+    return st_
+
+
+def replay_huge(task):
+    run_case(_huge_case(task))
